@@ -33,7 +33,9 @@ ASSUMPTIONS = [
 FORMS = ["gopher", "gophers", "gplus", "gpluss", "gdollar", "gbang", "http", "https", "head", "wap",
          "waphdr", "gemini", "spartan"]
 MUTATIONS = ["none", "none", "none", "nul", "msg0", "msgneg", "msghuge", "msgx", "msgon", "slash", "dslash",
-             "dotdot", "missing", "pctnul", "qmark", "bar", "dotseg", "dotseg", "tslash2", "tslash2"]
+             "dotdot", "missing", "pctnul", "qmark", "bar", "dotseg", "dotseg", "tslash2", "tslash2",
+             # argument parts (what follows '?' or '|' goes to a script as its arguments) in shell-like syntax
+             "qquote", "barquote", "qbslash", "qshell"]
 # long regular strings after the prefixes the handlers test with regular expressions (a pattern that backtracks on them
 # never finishes)
 _REDOS = [pre + unit * n + post for pre in ("URL:", "/URL:", "/", "GET /URL:", "gemini://h/URL:", "h /URL:")
@@ -109,6 +111,13 @@ def enumerate_cases(tier, seed):
     """live differential: the same requests over real sockets (plaintext and real TLS) and through the in-process seam"""
     yield {"mode": "live", "servertype": "ThreadingTCPServer"}
     yield {"mode": "live", "servertype": "ForkingTCPServer"}
+    # every argument-part mutation for a script and for a plain file, through every form (in-process)
+    site = [["run.sh", {"kind": "exec"}], ["readme.txt", {"kind": "txt", "content": "hello\n"}]]
+    for target in (2, 1):
+        for mut in ("qmark", "bar", "qquote", "barquote", "qbslash", "qshell"):
+            for form in FORMS:
+                yield {"mode": "single", "full": True, "site": site,
+                       "req": {"target": target, "mut": mut, "form": form, "raw": None, "rawtls": False, "search": None, "bare": False}}
 
 
 LIVE_SPEC = [
@@ -216,6 +225,14 @@ def _mutate(sel, mut):
         return sel + "?arg1 arg2"
     if mut == "bar":
         return sel + "|"
+    if mut == "qquote":
+        return sel + "?it's"
+    if mut == "barquote":
+        return sel + "|say \"hi"
+    if mut == "qbslash":
+        return sel + "?C:\\"
+    if mut == "qshell":
+        return sel + "?$(x) `y` ;z 'a b'"
     return sel
 
 
